@@ -81,9 +81,9 @@ def _object(family):
 def _box(family):
     idx = st.integers(0, 40)
     width = st.sampled_from([0, 1, 1, 2, 2, 3, 3, 5, 8, 40])
-    modes = ["free"] * 8 + ["all", "miss", "point", "point"] + (["thin"] * 5 if family == "B" else ["thin"])
+    modes = ["free"] * 8 + ["all", "miss", "point", "point", "touch", "touch"] + (["thin"] * 5 if family == "B" else ["thin"])
     return st.fixed_dictionaries({
-        "mode": st.sampled_from(modes), "axis": st.sampled_from([0, 1, 1]),
+        "mode": st.sampled_from(modes), "axis": st.sampled_from([0, 1, 1, 2]),
         "a": st.lists(idx, min_size=3, max_size=3), "d": st.lists(width, min_size=3, max_size=3),
     })
 
@@ -523,12 +523,16 @@ class C13(Check):
                 tmodels = target.models() if isinstance(target, Node) else [target]
                 coords = [c for m in tmodels for c in m.coords]
                 exact = program["family"] == "A" and S.on_quarter_lattice(coords)
-                lo, hi = S.make_box(coords, qspec["box"], exact)
+                box = qspec["box"]
+                if box.get("mode") == "touch" and not (len(tmodels) == 1 and tmodels[0].cls in ("Points", "Curve", "Surface")):
+                    # a face through the extreme coordinate is only exact where the coordinates are given, not computed
+                    box = {**box, "mode": "free"}
+                lo, hi = S.make_box(coords, box, exact)
                 q = Query(lo, hi, int(qspec["dims"]), bool(qspec["inv"]))
                 infos = [selection(m, q) for m in tmodels]
                 res.count("queries")
                 res.label("faces:exact" if exact else "faces:midway", f"dims:{q.dims}", f"inverse:{int(q.inv)}",
-                          f"box:{qspec['box']['mode']}")
+                          f"box:{box['mode']}" + (":z" if box["mode"] == "thin" and box.get("axis") == 2 else ""))
                 if any(lo[k] == hi[k] for k in range(q.dims)):
                     res.label("box:degenerate")
                 for m, info in zip(tmodels, infos):
